@@ -524,7 +524,10 @@ class Sym:
             return NotImplemented
         if isinstance(o, float):
             return _add_special(self, -o)
-        return self + (-o)
+        no = -o
+        if isinstance(no, float):
+            return _add_special(self, no)
+        return self + no
 
     def __rsub__(self, o):
         if isinstance(o, np.ndarray):
@@ -534,7 +537,10 @@ class Sym:
             return NotImplemented
         if isinstance(o, float):
             return _add_special(-self, o)
-        return o + (-self)
+        ns = -self
+        if isinstance(ns, float):
+            return _add_special(o, ns)
+        return o + ns
 
     def __mul__(self, o):
         if isinstance(o, np.ndarray):
@@ -932,6 +938,8 @@ def may_be_neginf(s):
 
 def _add_special(s, f):
     # s finite-or-neginf + (inf | -inf | nan)
+    if isinstance(s, float):
+        return s + f
     if math.isnan(f):
         return f
     if s.num is None:
